@@ -124,3 +124,35 @@ package mocker
 //@   ensures[C04,slow] variadic_fixed_part_by_position: c.isVariadic && result ==> forall k int :: 0 <= k && k < len(args) - 1 - ite(c.isMethod, int(1), int(0)) ==> arg.expr_accepts(c.exprs[k], args[k + ite(c.isMethod, int(1), int(0))])
 //@   ensures[C04,slow] variadic_tail_element_by_element: c.isVariadic && result ==> len(c.exprs) == len(args) - 1 - ite(c.isMethod, int(1), int(0)) + rv_len(value_of(rv_iface(args[len(args) - 1])))
 //@     | && forall j int :: 0 <= j && j < rv_len(value_of(rv_iface(args[len(args) - 1]))) ==> arg.expr_accepts(c.exprs[len(args) - 1 - ite(c.isMethod, int(1), int(0)) + j], rv_index(value_of(rv_iface(args[len(args) - 1])), j))
+
+// matcher_matches(m, args): the answer of condition m for a call's arguments (pure: Match has no side effects).
+// result_from: ghost, the matcher whose Result() produced the values most recently served.
+//@ uninterp func matcher_matches(m Matcher, args []reflect.Value) bool
+//@ ghost var result_from Matcher
+//@ extern func (github.com/tencent/goom.Matcher).Match
+//@   assigns nothing
+//@   ensures predicate: result == matcher_matches(self, args)
+//@ extern func (github.com/tencent/goom.Matcher).Result
+//@   assigns result_from, anyfield(BaseMatcher, curNum)
+//@   ensures served_by_receiver: result_from == self
+
+//@ pure func none_matches(w *When, args []reflect.Value, n int) bool = forall k int :: 0 <= k && k < n ==> !matcher_matches(w.matches[k], args)
+//@ pure func when_ok(w *When) bool = w != nil && arr(w.matches) != textref && len(w.matches) < 0x10000 && (forall k int :: 0 <= k && k < len(w.matches) ==> w.matches[k] != nil)
+//@   | && w.funcTyp != nil && rt_kind(w.funcTyp) == reflect.Func && (w.defaultReturns == nil ==> rt_numout(w.funcTyp) != 0)
+
+//@ func (w *When) returnDefaults
+//@   props C04
+//@   requires ok: when_ok(w)
+//@   assigns result_from, anyfield(BaseMatcher, curNum)
+//@   ensures default_serves: result_from == w.defaultReturns && w.defaultReturns != nil
+//@   panics_only_if neither_match_nor_default: w.defaultReturns == nil
+
+//@ func (w *When) invoke
+//@   props C04 C05
+//@   requires ok: when_ok(w)
+//@   assigns result_from, anyfield(BaseMatcher, curNum)
+//@   invariant loop 1 earlier_conditions_do_not_match: -1 <= rangeindex && rangeindex < len(w.matches) && none_matches(w, args1, rangeindex + 1) && when_ok(w)
+//@   decreases loop 1 len(w.matches) - rangeindex
+//@   ensures first_matching_condition_serves: exists j int :: (0 <= j && j < len(w.matches) && matcher_matches(w.matches[j], args1) && none_matches(w, args1, j) && result_from == w.matches[j])
+//@     | || (j == -1 && none_matches(w, args1, len(w.matches)) && result_from == w.defaultReturns && w.defaultReturns != nil)
+//@   panics_only_if neither_match_nor_default: none_matches(w, args1, len(w.matches)) && w.defaultReturns == nil
